@@ -17,6 +17,7 @@ import (
 	"testing"
 
 	"github.com/icon-project/goloop/module"
+	"github.com/icon-project/goloop/service/txresult"
 
 	"verifharness/tlaio"
 )
@@ -32,6 +33,7 @@ type ablock struct {
 	Ver   string `json:"ver"`
 	Votes []int  `json:"votes"`
 	Ts    int    `json:"ts"`
+	St    string `json:"st"`
 }
 
 type step struct {
@@ -48,16 +50,16 @@ type input struct {
 }
 
 const (
-	scale  = int64(1) // one abstract time unit = 1 microsecond (the rounding of the even-count median must commute with scaling)
-	baseTs = int64(1_700_000_000_000_000)    // real time of abstract 0 on a fresh chain
+	scale  = int64(1)                     // one abstract time unit = 1 microsecond (the rounding of the even-count median must commute with scaling)
+	baseTs = int64(1_700_000_000_000_000) // real time of abstract 0 on a fresh chain
 )
 
 type driver struct {
-	out     *tlaio.Out
-	growing map[int]*Chain
+	out       *tlaio.Out
+	growing   map[int]*Chain
 	atGenesis map[int]*Chain
-	perKey  map[string]int
-	supp    int
+	perKey    map[string]int
+	supp      int
 }
 
 func (d *driver) violation(id, key, what string, det interface{}) {
@@ -74,7 +76,7 @@ func sigOf(in *input) string {
 	fmt.Fprintf(&b, "n%d:", in.N)
 	for _, s := range in.Steps {
 		if s.Op == "import" {
-			fmt.Fprintf(&b, "i(h%d,t%d|%d,%s,%s,%v,%d);", s.Tip.Height, s.Tip.Ts, s.B.Dh, s.B.Prev, s.B.Ver, s.B.Votes, s.B.Ts)
+			fmt.Fprintf(&b, "i(h%d,t%d|%d,%s,%s,%s,%v,%d);", s.Tip.Height, s.Tip.Ts, s.B.Dh, s.B.Prev, s.B.Ver, s.B.St, s.B.Votes, s.B.Ts)
 		} else {
 			fmt.Fprintf(&b, "f%d;", s.Of)
 		}
@@ -180,6 +182,21 @@ func (d *driver) run(idx int, in *input) error {
 			case "unknown":
 				f.HF.PrevID = make([]byte, 32)
 				rnd.Read(f.HF.PrevID)
+			}
+			switch s.B.St { // what the header claims about the state after the parent
+			case "result":
+				f.HF.Result = append([]byte{}, f.HF.Result...)
+				f.HF.Result[rnd.Intn(len(f.HF.Result))] ^= 0x40
+			case "validators":
+				f.HF.NextValidatorsHash = make([]byte, 32)
+				rnd.Read(f.HF.NextValidatorsHash)
+			case "bloom":
+				// the header carries the bloom compressed: a bloom with the bits of one event log set
+				lb := txresult.NewLogsBloom(nil)
+				topic := make([]byte, 8+rnd.Intn(24))
+				rnd.Read(topic)
+				lb.AddLog(c.Wallets[0].Address(), [][]byte{topic})
+				f.HF.LogsBloom = lb.CompressedBytes()
 			}
 			switch s.B.Ver {
 			case "old":
